@@ -4,7 +4,10 @@ case = (mode, keycols, pivot, aggs, parts)
   mode    : 'groupBy' | 'rollup' | 'cube' | 'describe' | 'summary'
   keycols : list of column indices used as grouping keys (columns: 0 'k' int, 1 's' string, 2 'v' int, 3 'w' double)
   pivot   : None | (column index, None | [values])      (None for the values = pivot(col) without a value list)
-  aggs    : list of (code, [column indices], 0)          (code: see AGG)
+  aggs    : list of (code, [column indices], share)      (code: see AGG); share = 0: a freshly constructed Column;
+            share = (g, form): the Column OBJECT of sharing group g (one object per g within the case), used as it is
+            (form 0), as obj.alias(..) (form 1) or as obj.alias(..).alias(..) (form 2)
+  a mode ending in '*' : the same Column objects are first evaluated by a different grouping, then by this one
   parts   : list of partitions, each a list of rows, each row a 4-tuple (k, s, v, w) of nullable values
 
 The implementation side builds a DataFrame over exactly these partitions
@@ -43,7 +46,9 @@ RULE = ('cases (mode, key columns, pivot, aggregates, partitions of rows): table
         'pivot over s (explicit values incl. an absent one, or inferred), describe / summary(count, mean, stddev, min, max) '
         'on the numeric columns; for each table ALL assignments of its rows to 1..3 partitions that keep row order inside '
         'a partition (exhaustive for the small tables, sampled for 5-6 rows in the quick tier) plus random assignments to '
-        '<= 6 partitions with empty ones; non-trivial = at least two non-empty partitions or a subtotal/pivot mode; '
+        '<= 6 partitions with empty ones; about a third of the grouped cases have a twin whose agg() list SHARES aggregate '
+        'Column objects (same object twice, aliased once or twice, two alias expressions around one object, objects that '
+        'went through another rollup/pivot grouping first); non-trivial = at least two non-empty partitions or a subtotal/pivot mode; '
         'distinct by canonical JSON of the case')
 ASSUMPTIONS = [
     'int -> float conversions are exact (|sum of a column| < 2^53; generators use |v| <= 10^4)',
@@ -99,6 +104,22 @@ def _fn(code, cols):
     return table[name](c[0])
 
 
+def _build(aggs):
+    """The Column arguments of agg(); aggregates of one sharing group are ONE Python object."""
+    shared = {}
+    cols = []
+    for i, (code, c, tag) in enumerate(aggs):
+        if not tag:
+            cols.append(_fn(code, c))
+            continue
+        gid, form = tag
+        if gid not in shared:
+            shared[gid] = _fn(code, c)
+        obj = shared[gid]
+        cols.append(obj if form == 0 else obj.alias(f'x{i}') if form == 1 else obj.alias(f'y{i}').alias(f'z{i}'))
+    return cols
+
+
 def _parse(text, col):
     if text is None:
         return None
@@ -127,10 +148,16 @@ def impl(case):
                 out.append([stat] + cells)
             return out
         keys = [COLS[i] for i in keycols]
-        g = {'groupBy': df.groupBy, 'rollup': df.rollup, 'cube': df.cube}[mode](*keys)
+        columns = _build(aggs)
+        if mode.endswith('*'):
+            # the same Column objects in the aggregate list of another grouping, evaluated first
+            other = ['s'] if keys != ['s'] else ['k']
+            df.rollup(*other).agg(*columns).collect()
+            df.groupBy(*other).pivot('s' if other != ['s'] else 'k', ['a', 1]).agg(*columns).collect()
+        g = {'groupBy': df.groupBy, 'rollup': df.rollup, 'cube': df.cube}[mode.rstrip('*')](*keys)
         if pivot is not None:
             g = g.pivot(COLS[pivot[0]]) if pivot[1] is None else g.pivot(COLS[pivot[0]], list(pivot[1]))
-        res = g.agg(*[_fn(code, cols) for code, cols, _ in aggs]).collect()
+        res = g.agg(*columns).collect()
     except Exception as e:  # pylint: disable=broad-except
         _reset()
         return Err(type(e).__name__)
@@ -321,6 +348,8 @@ def oracle(case, result):
     mode, keycols, pivot, aggs, parts = case
     if mode in ('describe', 'summary'):
         return oracle_describe(case, result)
+    mode = mode.rstrip('*')
+    case = (mode, keycols, pivot, aggs, parts)
     site = _site(case)
     names = '+'.join(sorted({AGG[c] for c, _, _ in aggs}))
     if isinstance(result, Err):
@@ -472,6 +501,26 @@ def agg_sets(rng, tier):
     return singles, pairs, everything
 
 
+def share_variant(rng, aggs, prior_ok=True):
+    """The same aggregate list with some aggregate Column objects SHARED: a spec is repeated (the very same object
+    twice, an aliased copy, a doubly aliased copy, or two different alias expressions around the one object)."""
+    aggs = [(c, cols, 0) for c, cols, _ in aggs]
+    k = rng.randint(1, min(3, len(aggs)))
+    out = list(aggs)
+    for g, idx in enumerate(rng.sample(range(len(aggs)), k), 1):
+        code, cols, _ = aggs[idx]
+        style = rng.randrange(4)
+        first = (g, 0) if style < 3 else (g, 1)          # style 3: two different alias expressions, no bare object
+        pos = out.index(aggs[idx])
+        out[pos] = (code, cols, first)
+        extra = [(code, cols, (g, [0, 1, 2, 2][style]))]
+        if rng.random() < 0.25:
+            extra.append((code, cols, (g, rng.randrange(3))))
+        for e in extra:
+            out.insert(rng.randint(0, len(out)), e)
+    return out
+
+
 def modes(rng):
     """(mode, keycols, pivot) combinations."""
     out = [('groupBy', [K], None), ('groupBy', [S], None), ('groupBy', [K, S], None), ('groupBy', [], None),
@@ -566,6 +615,18 @@ def generate(rng, tier):
         aggs = [(CODE[rng.choice(strnames)], [S], 0) for _ in range(rng.randint(1, 3))]
         md = mds[i % len(mds)]
         cases.append((md[0], md[1], md[2], aggs, split(rows, assign, p)))
+    # (3c) shared aggregate Column objects: every third grouped case gets a twin whose agg() list reuses Column
+    #      objects (and, for some, whose objects went through another grouping first); the model treats aggregators
+    #      as values, so the expected rows only gain the repeated columns
+    twins = []
+    for i, (mode, keycols, pivot, aggs, parts) in enumerate(cases):
+        if aggs and rng.random() < (0.4 if quick else 0.33):
+            sub = aggs if len(aggs) <= 4 else rng.sample(aggs, rng.randint(2, 5))
+            m2 = mode + '*' if rng.random() < 0.3 else mode
+            twins.append((m2, keycols, pivot, share_variant(rng, sub), parts))
+    if quick:
+        twins = rng.sample(twins, min(len(twins), 450))
+    cases.extend(twins)
     # (4) describe / summary
     for _ in range(80 if quick else 1200):
         n = rng.randint(0, 6)
@@ -578,12 +639,13 @@ def generate(rng, tier):
 
 def kind(case):
     mode, keycols, pivot, aggs, parts = case
-    return f'{mode}{len(keycols)}' + ('.pivot' if pivot is not None else '') + (f'/{len(aggs)}agg' if aggs else '')
+    shared = '.shared' if any(t for _, _, t in aggs) else ''
+    return f'{mode}{len(keycols)}' + ('.pivot' if pivot is not None else '') + (f'/{len(aggs)}agg' if aggs else '') + shared
 
 
 def nontrivial(case, result):
     mode, _, pivot, _, parts = case
-    return sum(1 for p in parts if p) >= 2 or (mode in ('rollup', 'cube') or pivot is not None) and any(parts)
+    return sum(1 for p in parts if p) >= 2 or (mode.rstrip('*') in ('rollup', 'cube') or pivot is not None) and any(parts)
 
 
 def shrink_candidates(case):
@@ -597,6 +659,8 @@ def shrink_candidates(case):
     for i, p in enumerate(parts):
         if not p and len(parts) > 1:
             yield (mode, keycols, pivot, aggs, parts[:i] + parts[i + 1:])
+    if mode.endswith('*'):
+        yield (mode.rstrip('*'), keycols, pivot, aggs, parts)
     if mode in ('rollup', 'cube'):
         yield ('groupBy', keycols, pivot, aggs, parts)
     if pivot is not None and pivot[1] is None:
